@@ -1202,8 +1202,14 @@ class PathSum(object):
                 sv = struct(v)
                 if sv not in [struct(u) for u in uniq]:
                     uniq.append(v)
+            filt = []
+            for pth in paths:
+                for a, pol, _ in pth.conds[len(s.conds):]:
+                    item = ('tuple', (a, const(pol)))
+                    if struct(item) not in [struct(x) for x in filt]:
+                        filt.append(item)
             out.append((s, op(kind, ('tuple', tuple(its)), ('tuple', tuple(
-                ('tuple', v) for v in uniq)))))
+                ('tuple', v) for v in uniq)), ('tuple', tuple(filt)))))
         return out
 
     def binop(self, name, a, b):
@@ -2278,6 +2284,8 @@ class PathSum(object):
             e.notes = list(s.notes) + [('left-by-break', n, Path(b))]
             out.append(e)
         # exhaustion (or a false while-condition): the else clause runs
+        if not is_for and isinstance(n.test, ast.Constant) and n.test.value:
+            return out          # `while True` is left by break / return only
         s.notes.append(('exhausted', n, None))
         if n.orelse:
             out.extend(self.block(n.orelse, [s], fi))
